@@ -7,6 +7,9 @@ import Iota.Gen.Bip39
 import Iota.Tie.Expect
 import Iota.Model.Mnemonic
 import Iota.Spec.Bip39Words
+import Iota.Proofs.Vectors.Bip39
+import Iota.Proofs.Vectors.Hash
+import Iota.Proofs.Vectors.Mac
 
 namespace Iota.Tie.C03
 open Iota
